@@ -265,7 +265,9 @@ Definition set_attribute (t : target) (n : string) (vals : list attr) : target +
             (let existing_truthy_and_different :=
                if String.eqb f "cryptographic_algorithm" then match t_alg t with Some x => negb (x =? a_val a) | None => false end
                else if String.eqb f "cryptographic_length" then match t_len t with Some x => negb (x =? a_val a) | None => false end
-               else if String.eqb f "cryptographic_usage_masks" then match t_mask t with Some x => negb (x =? a_val a) | None => false end
+               else if String.eqb f "cryptographic_usage_masks" then
+                 (* the request value is expanded to its NAMED bits before it is compared with the stored list *)
+                 match t_mask t with Some x => negb (x =? Z.land (a_val a) usage_mask_named) | None => false end
                else if String.eqb f "operation_policy_name" then match t_policy t with Some x => negb (String.eqb x (a_str a)) | None => false end
                else (* sensitive *) t_sensitive t && negb (a_val a =? 1) in
              if existing_truthy_and_different then Done else Go)
@@ -516,7 +518,9 @@ Definition loc_match (o : sobj) (a : attr) : bool :=
   else if String.eqb n "Cryptographic Length" then match so_len o with Some x => x =? a_val a | None => false end
   else if String.eqb n "Unique Identifier" then so_uid o =? a_val a
   else if String.eqb n "Operation Policy Name" then String.eqb (a_str a) "default"
-  else if String.eqb n "Cryptographic Usage Mask" then Z.land (a_val a) (so_mask o) =? a_val a
+  else if String.eqb n "Cryptographic Usage Mask" then
+    (* get_enumerations_from_bit_mask keeps the named bits only; each of them must be set on the object *)
+    Z.land (Z.land (a_val a) usage_mask_named) (so_mask o) =? Z.land (a_val a) usage_mask_named
   else if String.eqb n "Certificate Type" then a_val a =? 1
   else if String.eqb n "Sensitive" then Bool.eqb (a_val a =? 1) (so_sensitive o)
   else true (* Initial Date never leaves the loop *).
